@@ -313,12 +313,13 @@ Qed.
 Lemma redistribute_spec (p : pdf NumR) (d : N) (tmp : list R) (avg : R) :
   pdf_wf p -> (d < pdf_dims p)%N -> length tmp = N.to_nat (pdf_bins p) ->
   nonneg tmp -> 0 < avg -> sumR tmp = INR (length tmp) * avg ->
+  (forall b, (b < length tmp)%nat -> gridn p d b <= gridn p d (S b)) ->
   forall k j (bin : N) (tb : R), (j + k <= length tmp)%nat -> (1 <= j)%nat -> (N.to_nat bin <= length tmp)%nat ->
     tb = cum tmp (N.to_nat bin) - INR (j - 1) * avg -> 0 <= tb ->
     (bin = 0%N /\ tb < avg \/ exists t, nth_error tmp (Nat.pred (N.to_nat bin)) = Some t /\ (1 <= bin)%N /\ tb < t) ->
     exists l, @redistribute NumR k p d tmp avg bin tb = Ok l /\ length l = k /\ all_ok tmp (gridn p d) avg j l.
 Proof.
-  intros W Hd Hlen Hpos Havg Hsum. induction k as [|k IH]; intros j bin tb Hjk Hj Hb Htb Htb0 Hinv.
+  intros W Hd Hlen Hpos Havg Hsum Hmono. induction k as [|k IH]; intros j bin tb Hjk Hj Hb Htb Htb0 Hinv.
   - exists []. cbn. auto.
   - cbn [redistribute]. change (T NumR) with R.
     assert (Hrem : avg <= sumR tmp - INR (j - 1) * avg).
@@ -341,7 +342,21 @@ Proof.
     assert (Ht : 0 < t) by lra.
     assert (Hj' : INR (S j - 1) = INR (j - 1) + 1).
     { replace (S j - 1)%nat with (S (j - 1)) by lia. now rewrite S_INR. }
-    cbn [NumR sub mul div T].
+    cbn [NumR sub mul div ltb T].
+    (* the clamp [if new_left < previous then previous] is the identity over the reals *)
+    assert (Hgm : grid p d (bin' - 1) <= grid p d bin').
+    { pose proof (Hmono (N.to_nat (bin' - 1)) Hb1len) as Hm. unfold gridn in Hm. rewrite N2Nat.id in Hm.
+      replace (N.of_nat (S (N.to_nat (bin' - 1)))) with bin' in Hm by lia. exact Hm. }
+    assert (Hfr : 0 <= (tb' - avg) / t < 1).
+    { split; [apply Rmult_le_pos; [lra|]; left; now apply Rinv_0_lt_compat|].
+      apply Rmult_lt_reg_r with t; [lra|]. unfold Rdiv. rewrite Rmult_assoc, Rinv_l by lra. lra. }
+    assert (Hcl : Rltb (grid p d bin' - (grid p d bin' - grid p d (bin' - 1)) * (tb' - avg) / t)
+                       (grid p d (bin' - 1)) = false).
+    { apply Rltb_false.
+      replace ((grid p d bin' - grid p d (bin' - 1)) * (tb' - avg) / t)
+        with ((grid p d bin' - grid p d (bin' - 1)) * ((tb' - avg) / t)) by (field; lra).
+      nra. }
+    rewrite Hcl.
     destruct (IH (S j) bin' (tb' - avg)) as (l & Hl & Hll & Hok);
       [lia|lia|lia| rewrite Hc, Hj'; ring | lra | right; exists t; split; [|split; [lia|lra]] |].
     { replace (Nat.pred (N.to_nat bin')) with (N.to_nat (bin' - 1)) by lia. exact Et. }
@@ -639,7 +654,9 @@ Proof.
     assert (Havg : 0 < avg) by (apply Rdiv_lt_0_compat; lra).
     assert (Hsum : sumR imp = INR (length imp) * avg). { rewrite Himp_len, HB. unfold avg. field. lra. }
     change (T NumR) with R in *.
-    destruct (redistribute_spec p d imp avg W Hd Himp_len Himp_nn Havg Hsum
+    assert (Hgm0 : forall b, (b < length imp)%nat -> gridn p d b <= gridn p d (S b)).
+    { intros b Hbb. rewrite !gridn_slice by (auto; unfold nbins; lia). apply V. unfold nbins. lia. }
+    destruct (redistribute_spec p d imp avg W Hd Himp_len Himp_nn Havg Hsum Hgm0
                 (N.to_nat (pdf_bins p) - 1) 1 0%N 0) as (inner & Hin & Hinl & Hok);
       [lia|lia|lia|cbn [N.to_nat]; rewrite cum_0; cbn [INR Nat.sub]; lra|lra|left; split; [reflexivity|lra]|].
     match goal with |- exists row, bind ?r _ = _ /\ _ =>
@@ -846,6 +863,87 @@ Proof.
   destruct (icdf_all_in_bin p V Hb us 0%N ltac:(lia) Hu) as (xs & bs & ws & H1 & H2).
   exists xs, bs, ws. split; [now apply icdf_componentwise|]. split; [exact H2|].
   exact (icdf_all_length p 0 us xs bs ws H1).
+Qed.
+
+(* ------------------------------------------------------------------------------------------- *)
+(** * 7b. every numeric type: a produced boundary is never below the lower edge of the old bin it
+      was interpolated in (the clamp added to the C++ after a rounding defect was found) *)
+Section ClampGeneric.
+  Context {K : Num}.
+
+  Lemma clamp_not_below (x p : K) : ltb K p p = false -> ltb K (if ltb K x p then p else x) p = false.
+  Proof. intros H. destruct (ltb K x p) eqn:E; [exact H|exact E]. Qed.
+
+  (* the run of [redistribute]: each step scans to old bin [bin' - 1] with lower edge [prev] and
+     produces [y]; [Rel y prev] is what is claimed about the pair *)
+  Fixpoint steps_rel (Rel : K -> K -> Prop) (k : nat) (p : pdf K) (d : N) (tmp : list K) (avg : K)
+           (bin : N) (tb : K) (l : list K) : Prop :=
+    match k, l with
+    | O, [] => True
+    | S k', y :: rest =>
+      exists bin' tb' prev, scan (S (length tmp)) tmp avg bin tb = Ok (bin', tb') /\ bin' <> 0%N /\
+        bin_left p d (bin' - 1) = Ok prev /\ Rel y prev /\
+        steps_rel Rel k' p d tmp avg bin' (sub K tb' avg) rest
+    | _, _ => False
+    end.
+
+  Lemma steps_rel_impl (R1 R2 : K -> K -> Prop) : (forall y prev, R1 y prev -> R2 y prev) ->
+    forall k p d tmp avg bin tb l, steps_rel R1 k p d tmp avg bin tb l -> steps_rel R2 k p d tmp avg bin tb l.
+  Proof.
+    intros HR. induction k as [|k IH]; intros p d tmp avg bin tb l H; destruct l as [|y rest]; cbn [steps_rel] in *; auto.
+    destruct H as (bin' & tb' & prev & H1 & H2 & H3 & H4 & H5). exists bin', tb', prev.
+    split; [exact H1|]. split; [exact H2|]. split; [exact H3|]. split; [now apply HR|now apply IH].
+  Qed.
+
+  Definition not_below (y prev : K) : Prop := ltb K prev prev = false -> ltb K y prev = false.
+
+  Lemma redistribute_not_below : forall k (p : pdf K) d tmp avg bin tb l,
+    redistribute k p d tmp avg bin tb = Ok l -> steps_rel not_below k p d tmp avg bin tb l /\ length l = k.
+  Proof.
+    induction k as [|k IH]; intros p d tmp avg bin tb l H; cbn [redistribute] in H.
+    - injection H as <-. split; [exact I|reflexivity].
+    - destruct (scan (S (length tmp)) tmp avg bin tb) as [[bin' tb']|c] eqn:Es; cbn [bind] in H; [|discriminate].
+      destruct (N.eqb_spec bin' 0) as [E0|E0]; [discriminate|].
+      destruct (bin_left p d (bin' - 1)) as [prev|c] eqn:Ep; cbn [bind] in H; [|discriminate].
+      destruct (bin_left p d bin') as [cur|c] eqn:Ec; cbn [bind] in H; [|discriminate].
+      destruct (getN 26 tmp (bin' - 1)) as [t|c] eqn:Et; cbn [bind] in H; [|discriminate].
+      destruct (redistribute k p d tmp avg bin' (sub K tb' avg)) as [rest|c] eqn:Er; cbn [bind] in H; [|discriminate].
+      injection H as <-. destruct (IH _ _ _ _ _ _ _ Er) as (IH1 & IH2).
+      split; [|cbn [length]; now rewrite IH2]. cbn [steps_rel].
+      exists bin', tb', prev. split; [exact Es|]. split; [exact E0|]. split; [exact Ep|].
+      split; [|exact IH1]. unfold not_below. apply clamp_not_below.
+  Qed.
+End ClampGeneric.
+
+(* IEEE formats: [<] is irreflexive on every value (also NaN), so the statement is unconditional; for
+   finite values it says  previous <= boundary  as real numbers *)
+Lemma Bltb_irrefl prec emax (x : binary_float prec emax) : Bltb x x = false.
+Proof.
+  destruct x as [s|s| |s m e H]; try reflexivity.
+  - destruct s; reflexivity.
+  - unfold Bltb, SpecFloat.SFltb. cbn. rewrite Z.compare_refl, Pos.compare_cont_refl. destruct s; reflexivity.
+Qed.
+
+Definition not_below_B prec emax (y prev : binary_float prec emax) : Prop :=
+  Bltb y prev = false /\ (is_finite prev = true -> is_finite y = true -> (B2R prev <= B2R y)%R).
+
+Lemma c07_new_boundary_not_below_bin :
+  forall (K : Num) k (p : pdf K) d tmp avg bin tb l,
+    redistribute k p d tmp avg bin tb = Ok l ->
+    steps_rel (fun y prev => ltb K prev prev = false -> ltb K y prev = false) k p d tmp avg bin tb l /\ length l = k.
+Proof. intros K. exact (@redistribute_not_below K). Qed.
+
+Lemma c07_new_boundary_not_below_bin_float :
+  forall prec emax Hprec Hmax k (p : pdf (NumB prec emax Hprec Hmax)) d tmp avg bin tb l,
+    redistribute k p d tmp avg bin tb = Ok l ->
+    steps_rel (K := NumB prec emax Hprec Hmax) (not_below_B prec emax) k p d tmp avg bin tb l /\ length l = k.
+Proof.
+  intros prec emax Hprec Hmax k p d tmp avg bin tb l H.
+  destruct (redistribute_not_below k p d tmp avg bin tb l H) as (H1 & H2). split; [|exact H2].
+  apply (steps_rel_impl (K := NumB prec emax Hprec Hmax) not_below); [|exact H1].
+  intros y prev Hnb. unfold not_below in Hnb. cbn [NumB ltb] in Hnb. specialize (Hnb (Bltb_irrefl _ _ prev)).
+  split; [exact Hnb|]. intros Fp Fy. rewrite (Bltb_correct _ _ y prev Fy Fp) in Hnb.
+  destruct (Rlt_bool_spec (B2R y) (B2R prev)) as [?|Hle]; [discriminate|exact Hle].
 Qed.
 
 (* ------------------------------------------------------------------------------------------- *)
@@ -1119,3 +1217,36 @@ Qed.
 
 Lemma ex_us : length [0; 3 / 4] = N.to_nat (pdf_dims ex_p) /\ Forall (fun u => 0 <= u < 1) [0; 3 / 4].
 Proof. split; [reflexivity|]. repeat constructor; lra. Qed.
+
+(* one redistribution step is defined: over the reals (importances 1, 1; average 1) and in double
+   precision (uniform two-bin grid), the latter computed through the wire representation *)
+Lemma ex_redistribute_R : exists l, @redistribute NumR 1 ex_p 0 [1; 1] 1 0%N 0 = Ok l /\ length l = 1%nat.
+Proof.
+  destruct ex_valid as (W & V).
+  destruct (redistribute_spec ex_p 0 [1; 1] 1 W ltac:(cbn; lia) eq_refl) with (k := 1%nat) (j := 1%nat) (bin := 0%N) (tb := 0)
+    as (l & Hl & Hll & _).
+  - unfold nonneg. repeat constructor; lra.
+  - lra.
+  - rewrite !sumR_cons, sumR_nil. cbn [length INR]. lra.
+  - intros b Hb. cbn [length] in Hb. rewrite !gridn_slice by (auto; cbn; lia). apply (V 0%N ltac:(cbn; lia)). exact Hb.
+  - cbn [length]. lia.
+  - lia.
+  - cbn [length N.to_nat]. lia.
+  - cbn [N.to_nat]. rewrite cum_0. cbn [INR Nat.sub]. lra.
+  - lra.
+  - left. split; [reflexivity|lra].
+  - exists l. split; [exact Hl|exact Hll].
+Qed.
+
+Definition exB_chk : bool :=
+  match @redistribute B64 1 (@uniform_pdf B64 1 2) 0 [one B64; one B64] (one B64) 0 (zero B64) with
+  | Ok [y] => match Bout 53 1024 y with OFin false _ _ => true | _ => false end
+  | _ => false
+  end.
+Lemma ex_redistribute_B64 :
+  exists l, @redistribute B64 1 (@uniform_pdf B64 1 2) 0 [one B64; one B64] (one B64) 0 (zero B64) = Ok l.
+Proof.
+  assert (H : exB_chk = true) by (vm_compute; reflexivity). unfold exB_chk in H.
+  destruct (@redistribute B64 1 (@uniform_pdf B64 1 2) 0 [one B64; one B64] (one B64) 0 (zero B64)) as [l|c];
+    [exists l; reflexivity|discriminate].
+Qed.
